@@ -129,6 +129,13 @@ def dtype_family():
     return res
 
 
+def dtype_model_ok(s: str) -> bool:
+    """dtype strings on which the metadata model (Meta.np_valid_name + the agreement on comma / leading-digit strings, which numpy
+    always answers with a structured or sub-array dtype or an error) is tied to numpy: everything printable without a parenthesis
+    (numpy's comma-string parser accepts '()i4' as int32; the model does not read that notation)."""
+    return isinstance(s, str) and "(" not in s and ")" not in s and all(ord(ch) >= 32 and ord(ch) != 127 for ch in s)
+
+
 def dtype_short_strings(rng, n):
     """Random strings over the alphabet of the grammar (inside Meta.dtype_in_scope)."""
     al = list("<>=|?bhilqpnBHILQPNfdUSVOMmeg 0123456789+-_[]sntuoxyacr.") + ["int", "uint", "float", "bool", "str", "bytes", "8", "16", "32", "64"]
